@@ -1135,6 +1135,9 @@ func (s *Sim) Settle() { synctest.Wait() }
 func (s *Sim) SetMaxSimTime(d time.Duration) { s.cfg.MaxSimTime = d }
 
 // Op labels what the current task is executing (appears in hang reports).
+// TaskName is the name of the task that is running now.
+func (s *Sim) TaskName() string { return s.cur.name }
+
 func (s *Sim) Op(label string) { s.cur.opLabel = label; s.cur.ticks = 0; s.cur.sinceSP = 0 }
 
 // TaskCount returns how many tasks exist and how many are not done.
